@@ -292,13 +292,15 @@ def managers(prog, run):
                         return (data_present if name in ('operator bool', 'has_value') else (not data_present),)
                 return None
             ev = cfgx.Evaluator(fn, {}, custom=custom)
+            evs.append(ev)
             return lambda f, c, st: ev.ev(c, st)
+        evs = []
 
         cases = (('no data and the mechanism has not verified the server (early <success/>)', hostile(False, None, False)),
                  ('data that the mechanism rejects (wrong server signature)', hostile(True, False, None)))
-        for label, evc in cases:
+        for k, (label, evc) in enumerate(cases):
             run.instance(r3)
-            res = cfgx.sink_reachability(fn, evc, succ_sites)
+            res = cfgx.sink_reachability(fn, evc, succ_sites, track=evs[k])
             bad = [x for x in succ_sites if res[x] is not None]
             if bad:
                 which = 'success-without-mechanism-check' if label.startswith('no data') else 'success-data-not-verified'
